@@ -964,8 +964,12 @@ Definition melt_ref (q : Z) : M meltref :=
 Definition op_resolve (q how : Z) : M Z :=
   doM r <- melt_ref q ;
   doM w <- get ;
-  doM_ (if pay_status w (mr_inv r) =? 3 then set_pay (mr_inv r) (if how =? 1 then 1 else 2) else ret tt) ;
-  check_melt_quote (mr_wallet r) (mr_mint r) (mr_q r).
+  doM_ (if pay_status w (mr_inv r) =? 3 then set_pay (mr_inv r) (if (how =? 1) || (how =? 4) then 1 else 2) else ret tt) ;
+  (* how 1 / 2: the payment succeeds / fails and the wallet polls the quote; 4 / 3: the same at the backend only - the wallet
+     learns of it later (by a poll, or by Melt on the same quote) *)
+  if how <=? 2 then check_melt_quote (mr_wallet r) (mr_mint r) (mr_q r)
+  else (* the mint itself notices at its next poll of the payment (the harness's state queries after the step trigger one) *)
+       doM _st <- mint_poll (mr_mint r) (mr_q r) ; ret 0.
 Definition op_melt_again (vr : variant) (q : Z) : M Z :=
   doM r <- melt_ref q ;
   doM_ modify (fun w => set_outcome w 0) ;
